@@ -161,6 +161,12 @@ enum Shape {
     U8I64,
     Str,
     OptRet,
+    /// `(i32) -> Result<i32, bool>` returning Ok, `(i32) -> Result<bool, i32>` returning Err,
+    /// `(i32) -> Verdict<i32, bool>` returning Accept, `(i32) -> Verdict<bool, i32>` returning Reject
+    ResOk,
+    ResErr,
+    VerdAcc,
+    VerdRej,
     /// plain `fn` pointers (no captured state): tag is 9000 + k
     FpUnit(usize),
     FpI32(usize),
@@ -175,7 +181,19 @@ enum Shape {
     OptValOut(usize),
 }
 
-const PRIM_SHAPES: [Shape; 7] = [Shape::Unit0, Shape::I32, Shape::I32I32, Shape::Bool, Shape::U8I64, Shape::Str, Shape::OptRet];
+const PRIM_SHAPES: [Shape; 11] = [
+    Shape::Unit0,
+    Shape::I32,
+    Shape::I32I32,
+    Shape::Bool,
+    Shape::U8I64,
+    Shape::Str,
+    Shape::OptRet,
+    Shape::ResOk,
+    Shape::ResErr,
+    Shape::VerdAcc,
+    Shape::VerdRej,
+];
 
 impl Shape {
     fn name(&self) -> &'static str {
@@ -187,6 +205,10 @@ impl Shape {
             Shape::U8I64 => "u8-i64",
             Shape::Str => "str",
             Shape::OptRet => "opt-ret",
+            Shape::ResOk => "result-ok-ret",
+            Shape::ResErr => "result-err-ret",
+            Shape::VerdAcc => "verdict-accept-ret",
+            Shape::VerdRej => "verdict-reject-ret",
             Shape::FpUnit(_) => "fnptr-unit",
             Shape::FpI32(_) => "fnptr-i32",
             Shape::ValIn(_) => "val-in",
@@ -204,6 +226,7 @@ impl Shape {
         match *self {
             Shape::Unit0 | Shape::FpUnit(_) | Shape::ValOut(_) | Shape::OptValOut(_) => vec![],
             Shape::I32 | Shape::FpI32(_) | Shape::OptRet | Shape::I32ValOut(_) => vec![TyRef::I32],
+            Shape::ResOk | Shape::ResErr | Shape::VerdAcc | Shape::VerdRej => vec![TyRef::I32],
             Shape::I32I32 => vec![TyRef::I32, TyRef::I32],
             Shape::Bool => vec![TyRef::Bool],
             Shape::U8I64 => vec![], // u8/i64: primitives that are never receivers here
@@ -233,6 +256,10 @@ impl Shape {
             Shape::U8I64 => "(u8, i64) -> i32".into(),
             Shape::Str => "(RotoString) -> i32".into(),
             Shape::OptRet => "(i32) -> Option<i32>".into(),
+            Shape::ResOk => "(i32) -> Result<i32, bool>".into(),
+            Shape::ResErr => "(i32) -> Result<bool, i32>".into(),
+            Shape::VerdAcc => "(i32) -> Verdict<i32, bool>".into(),
+            Shape::VerdRej => "(i32) -> Verdict<bool, i32>".into(),
             Shape::ValIn(t) => format!("(Val<T{t}>) -> i32"),
             Shape::ValInI32(t) => format!("(Val<T{t}>, i32) -> i32"),
             Shape::I32ValIn(t) => format!("(i32, Val<T{t}>) -> i32"),
@@ -256,6 +283,7 @@ impl Shape {
         match *self {
             Shape::Unit0 | Shape::FpUnit(_) | Shape::ValOut(_) | Shape::OptValOut(_) => tag,
             Shape::I32 | Shape::FpI32(_) | Shape::OptRet | Shape::I32ValOut(_) => tag + 7,
+            Shape::ResOk | Shape::ResErr | Shape::VerdAcc | Shape::VerdRej => tag + 7,
             Shape::I32I32 => tag + 7 * 3 + 2,
             Shape::Bool => tag + 1,
             Shape::U8I64 => tag + 5 + 11,
@@ -325,6 +353,14 @@ fn build_fn(name: &str, shape: Shape, tag: i32) -> Result<Function, Registration
         }
         Shape::Str => Function::new(name, DOC, vec!["s"], move |s: RotoString| -> i32 { tag + s.to_string().len() as i32 }, location!()),
         Shape::OptRet => Function::new(name, DOC, vec!["a"], move |a: i32| -> Option<i32> { Some(tag + a) }, location!()),
+        Shape::ResOk => Function::new(name, DOC, vec!["a"], move |a: i32| -> Result<i32, bool> { Ok(tag + a) }, location!()),
+        Shape::ResErr => Function::new(name, DOC, vec!["a"], move |a: i32| -> Result<bool, i32> { Err(tag + a) }, location!()),
+        Shape::VerdAcc => {
+            Function::new(name, DOC, vec!["a"], move |a: i32| -> roto::Verdict<i32, bool> { roto::Verdict::Accept(tag + a) }, location!())
+        }
+        Shape::VerdRej => {
+            Function::new(name, DOC, vec!["a"], move |a: i32| -> roto::Verdict<bool, i32> { roto::Verdict::Reject(tag + a) }, location!())
+        }
         Shape::FpUnit(k) => Function::new(name, DOC, vec![], FP_UNIT[k % 8], location!()),
         Shape::FpI32(k) => Function::new(name, DOC, vec!["a"], FP_I32[k % 8], location!()),
         Shape::ValIn(t)
@@ -1059,6 +1095,31 @@ impl Model {
                         expect,
                         kind,
                     ),
+                    // the payload that carries the i32 is used as an i32, the other side as a bool
+                    Shape::ResOk => mk(
+                        format!("fn {fname}() -> i32 {{ let r: i32 = 7; match {} {{ Ok(v) => v + 0, Err(e) => if e {{ 77777 }} else {{ 77778 }} }} }}\n", call(&["r"])),
+                        RunKind::Unit,
+                        expect,
+                        kind,
+                    ),
+                    Shape::ResErr => mk(
+                        format!("fn {fname}() -> i32 {{ let r: i32 = 7; match {} {{ Ok(b) => if b {{ 77777 }} else {{ 77778 }}, Err(e) => e + 0 }} }}\n", call(&["r"])),
+                        RunKind::Unit,
+                        expect,
+                        kind,
+                    ),
+                    Shape::VerdAcc => mk(
+                        format!("fn {fname}() -> i32 {{ let r: i32 = 7; match {} {{ Accept(v) => v + 0, Reject(e) => if e {{ 77777 }} else {{ 77778 }} }} }}\n", call(&["r"])),
+                        RunKind::Unit,
+                        expect,
+                        kind,
+                    ),
+                    Shape::VerdRej => mk(
+                        format!("fn {fname}() -> i32 {{ let r: i32 = 7; match {} {{ Accept(b) => if b {{ 77777 }} else {{ 77778 }}, Reject(e) => e + 0 }} }}\n", call(&["r"])),
+                        RunKind::Unit,
+                        expect,
+                        kind,
+                    ),
                     Shape::ValIn(t) => {
                         mk(format!("fn {fname}(x: {}) -> i32 {{ {} }}\n", tp(t)?, call(&["x"])), RunKind::ValIn(t), expect, kind)
                     }
@@ -1438,7 +1499,17 @@ impl<'a> LibGen<'a> {
                     self.typed_shape(t)
                 }
             }
-            TyRef::I32 => *self.rng.pick(&[Shape::I32, Shape::I32I32, Shape::Unit0, Shape::Bool, Shape::OptRet]),
+            TyRef::I32 => *self.rng.pick(&[
+                Shape::I32,
+                Shape::I32I32,
+                Shape::Unit0,
+                Shape::Bool,
+                Shape::OptRet,
+                Shape::ResOk,
+                Shape::ResErr,
+                Shape::VerdAcc,
+                Shape::VerdRej,
+            ]),
             TyRef::Bool => *self.rng.pick(&[Shape::Bool, Shape::Unit0, Shape::I32]),
             TyRef::Str => *self.rng.pick(&[Shape::Str, Shape::Unit0, Shape::I32]),
         }
